@@ -67,6 +67,14 @@ class ModelGroup:
         else:
             raise AttributeError(f"Cannot find model {item!r}.")
 
+    def __setattr__(self, key: str, value) -> None:
+        # A model group has no other setting. Without this check a key such as
+        # 'pipeline.photon_collection.my_model' would silently create a new attribute.
+        if key not in ("_log", "_name", "models"):
+            raise AttributeError(f"Cannot set attribute {key!r} in a model group.")
+
+        super().__setattr__(key, value)
+
     def __dir__(self):
         return dir(type(self)) + [model.name for model in self.models]
 
